@@ -23,6 +23,10 @@ type WS struct {
 }
 
 // DialWS opens ws://addr+path with the given sub-protocol ("" = none). A non-101 answer is reported in Status.
+// UpgradeHeaders is appended to every WebSocket upgrade request ("Name: value\r\n" lines): headers a client is free to
+// send and that must not matter (the authorisation drivers name the administrator in the server's internal header).
+var UpgradeHeaders = ""
+
 func DialWS(addr, path, subproto string) (*WS, error) {
 	c, err := net.DialTimeout("tcp", addr, 5*time.Second)
 	if err != nil {
@@ -35,7 +39,7 @@ func DialWS(addr, path, subproto string) (*WS, error) {
 	if subproto != "" {
 		req += "Sec-WebSocket-Protocol: " + subproto + "\r\n"
 	}
-	req += "\r\n"
+	req += UpgradeHeaders + "\r\n"
 	if _, err := c.Write([]byte(req)); err != nil {
 		c.Close()
 		return nil, err
